@@ -314,7 +314,10 @@ pub fn c17_insertion_known_gaps() {
     reach!("c17.insertion_gaps.end");
 }
 
-// ---- C17 completion parameter edit, one signature per harness, compared field by field (no string rebuilt)
+// ---- C17 completion parameter edit, one signature per harness, compared field by field (no string rebuilt).
+// Measured: still out of reach — the lines come out of `content.lines().collect::<Vec<&str>>()` with lengths CBMC no
+// longer knows, so `line.find("):")` (CharSearcher + memcmp) unwinds to the bound at every candidate position; > 7 min
+// for the one-line template without reaching the SAT back end. Kept as props=ATTEMPT (native replay only).
 fn insertion_fields(text: &str, function_line: usize) -> Option<(usize, usize, bool)> {
     let db = FixtureDatabase::new();
     let p = PathBuf::from(PU);
